@@ -13,12 +13,14 @@ import (
 // cSingleValued: a handshake header that must occur exactly once is judged over all its lines, not over the first one
 // (http.Header.Get): a second line with a different value would otherwise be ignored although the one-line form
 // "a, b" of the same header is refused.
-func cSingleValued(p *Program, r *Report, rule string, fns []string, keys []string) {
+func cSingleValued(p *Program, r *Report, rule string, label string, fns []string, keys []string) {
+	seen := map[*ssa.Function]bool{}
 	for _, fname := range fns {
-		fn := p.Func(fname)
-		if fn == nil {
-			continue
+		fn := p.FuncOpt(fname)
+		if fn == nil || seen[fn] {
+			continue // inlined into a function of the list (or analysed already under its absorbed name)
 		}
+		seen[fn] = true
 		for _, b := range p.blocksOf(fn) {
 			for _, in := range b.Instrs {
 				call, ok := in.(*ssa.Call)
@@ -55,7 +57,7 @@ func cSingleValued(p *Program, r *Report, rule string, fns []string, keys []stri
 					if !decides {
 						continue
 					}
-					r.Check(rule, fname, "first line of "+key, p.InstrPos(call), false,
+					r.Check(rule, label, "first line of "+key, p.InstrPos(call), false,
 						"a handshake header that must be single-valued ("+strings.Join(keys, ", ")+") is validated over all its lines (Header.Values / headerTokens), not with Header.Get, which reads the first line only",
 						fname+" decides on Header.Get(\""+key+"\")")
 				}
